@@ -106,6 +106,15 @@ def c11(ctx):
         cfg.logical = r.choice([0, {"T": 1, "Q": 2, "G": 2}[cls]])
         if ig == "r":
             cfg.gen = cfg.star = False
+        bound = cfg.frame_size
+        if r.random() < 0.35:
+            # the frame size asked for through an explicit (empty) flow object, while options.frame_size says
+            # something else: the flow is what counts
+            fk = r.choice(["B", {"T": "FT", "Q": "FQ", "G": "FQ"}[cls]])
+            bound = r.choice([1, 2, 3, 5])
+            cfg.flow = (fk, {"T": 1, "Q": 2, "G": 2}[cls], bound)
+            cfg.frame_size = r.choice([250, 7, bound])
+            ctx.report.count("C11/write/explicit-flow")
         try:
             stream = make_stream(cfg)
         except Exception:  # noqa: BLE001
@@ -126,7 +135,7 @@ def c11(ctx):
         nframes = sum(1 for k, _ in log if k == "F")
         if nframes >= 2:
             ctx.report.nontrivial.add((cfg.tok(), tuple(core_stmt_tok(s) for s in stmts)))
-        ctx.report.count(f"C11/write/{ig}/{cls}/fs={cfg.frame_size}")
+        ctx.report.count(f"C11/write/{ig}/{cls}/fs={bound}")
         # correspondence: pull/emit order
         impl_trace = " ".join("P" if k == "P" else v for k, v in log) + (" R" if raised else "") + " " + core.stream_end_tok(stream)
         if ig == "g":
@@ -144,8 +153,8 @@ def c11(ctx):
                 if produced is None:
                     continue
                 pending = produced - pulls[i - 1]
-                if pending >= cfg.frame_size:
-                    pv = f"at pull {i} {pending} rows are pending (frame_size {cfg.frame_size}): frames were not handed over before more input was consumed"
+                if pending >= bound:
+                    pv = f"at pull {i} {pending} rows are pending (frame_size {bound}): frames were not handed over before more input was consumed"
                     if cls == "G":
                         sig = {"kind": "graphs-path-buffers"}
                     break
@@ -534,7 +543,7 @@ def c13(ctx):
     out = []
     r = ctx.rng
     # (a) header fidelity
-    names = ["", "näme", "日本語", "a" * 200, "\u0000x", "emoji 🎉"]
+    names = ["", "näme", "日本語", "a" * 200, "\u0000x", "emoji 🎉", " padded ", "\ttab", "trailing\n", "\u00a0nbsp\u3000", "   ", "inner space"]
     for _ in range(ctx.n(300, 5000)):
         cls = r.choice("TQG")
         logical = r.choice([x for x in core.LOGICALS])
